@@ -11,5 +11,44 @@ def groups(tier):
     return g
 
 
+def now_obligations(tier):
+    """M13: the real UniqueId::now under every interleaving of its atomic operations (vlib/mirsym/nowcheck.py)"""
+    import time
+    from .. import common as C
+    from ..mirsym import nowcheck, mirdump
+    from ..mirsym.program import Program
+    from ..mirsym.interp import Stats
+    mirdump.dump('rbx_types')
+    prog = Program(['rbx_types'], mirdump.MIR_DIR)
+    cfgs = [dict(threads=1, calls=3), dict(threads=2, calls=1), dict(threads=2, calls=2, pb=3)] + ([] if tier == 'quick' else [dict(threads=3, calls=1), dict(threads=2, calls=3, pb=3)])
+    ob = C.Obligation('M13.now', 'ids returned by concurrent UniqueId::now() calls are pairwise distinct in every interleaving (clock, random source and the start of the global counter arbitrary): discharges the freshness assumption A2 of the WeakDom obligations',
+                      'M', '%s threads x calls, switch at every atomic operation, <= 3 preemptions' % [(c['threads'], c['calls']) for c in cfgs], functions=['UniqueId::now'])
+    st = Stats()
+    t = time.time()
+    for cfg in cfgs:
+        r = nowcheck.explore(prog, cfg, st, budget_s=600)
+        ob.paths += r['paths']
+        if r['unsupported']:
+            ob.status, ob.detail = C.INCONCLUSIVE, r['unsupported'][:300]
+            break
+        for v in r['violations']:
+            ob.violations.append(dict(key='now_duplicate_id' if 'duplicate' in v['label'] else 'now_panic', what=v['label'][:300] + ' :: ' + str(v.get('replay_detail'))[:200], replay=v.get('replay'), confirmed=bool(v.get('confirmed'))))
+    else:
+        ob.status = C.FAIL if ob.violations else C.PASS
+        ob.vacuity = ob.paths > 0
+        if ob.violations:
+            ob.detail = ob.violations[0]['what']
+    ob.queries, ob.solver_s, ob.wall_s = st.queries, st.solver_s, time.time() - t
+    ob.stubs = sorted(st.models_used)
+    tw = C.Obligation('M13.twin', 'vacuity twin: with the counter update split into load + store the duplicate must be found', 'M', '2 threads x 1 call')
+    r = nowcheck.explore(prog, dict(threads=2, calls=1, twin=True), Stats(), budget_s=120)
+    tw.paths, tw.queries = r['paths'], 1
+    if r['violations']:
+        tw.status, tw.vacuity = C.PASS, True
+    else:
+        tw.status, tw.detail = C.INCONCLUSIVE, 'twin found no violation: %s' % r['unsupported']
+    return [ob, tw]
+
+
 def run(tier, seed, t0, only=None):
-    return D.run('C12', groups(tier), tier, seed, t0)
+    return D.run('C12', groups(tier), tier, seed, t0, extra_obs=now_obligations(tier))
